@@ -40,6 +40,14 @@ class Undecided(Exception):
         return 'UNDECIDED: %s%s' % (self.what, (' at ' + self.where) if self.where else '')
 
 
+class NeedSplit(Exception):
+    """An array index (or similar) is not yet a constant: the state must be split on it first."""
+
+    def __init__(self, value):
+        Exception.__init__(self, 'need split')
+        self.value = value
+
+
 def C(v, tk):
     return ('c', v, tk)
 
@@ -58,6 +66,9 @@ def tk_of(v):
     if v[0] == 't':
         return v[3]
     raise Undecided('tk_of non-scalar %r' % (v[0],))
+
+
+DISCR = {}   # enum path -> list of discriminant values by variant index (only non-positional ones)
 
 
 def wrap(val, tk):
@@ -82,6 +93,8 @@ def apply_op(op, xs, tks, rtk):
         return wrap(~xs[0], rtk)
     if op == 'Neg':
         return wrap(-xs[0], rtk)
+    if op == 'Discr':
+        return DISCR[tks[0][2:]][xs[0]]
     if op == 'CountOnes':
         bits, _ = INT_TYPES[tks[0]]
         return bin(xs[0] & ((1 << bits) - 1)).count('1')
@@ -99,6 +112,8 @@ def apply_op(op, xs, tks, rtk):
         bits, _ = INT_TYPES[rtk]
         sh = b % bits  # MIR Shl/Shr mask the shift amount; the overflow Assert (if any) is separate
         return wrap(a << sh, rtk) if op.startswith('Shl') else wrap(a >> sh, rtk)
+    if op == 'Cmp':   # index into core::cmp::Ordering {Less, Equal, Greater}
+        return 0 if a < b else (1 if a == b else 2)
     if op == 'Eq': return int(a == b)
     if op == 'Ne': return int(a != b)
     if op == 'Lt': return int(a < b)
@@ -183,6 +198,8 @@ def term_str(v):
         return '%s(%s)' % (v[1], ', '.join(term_str(a) for a in v[2]))
     if k == 'adt':
         return '%s#%d(%s)' % (v[1], v[2], ', '.join(term_str(a) for a in v[3]))
+    if k == 'arr':
+        return '[%s]' % ', '.join(term_str(a) for a in v[1])
     if k == 'se':
         return '%s?%s' % (v[1], term_str(v[2]))
     if k == 'ref':
@@ -203,6 +220,9 @@ class Program:
             if f['path'] in self.fns:
                 raise Undecided('duplicate function path ' + f['path'])
             self.fns[f['path']] = f
+        self.ext_fns = {}
+        for f in facts.get('ext_fns', []):
+            self.ext_fns.setdefault(f['path_inst'], f)
         self.adts = {}
         for a in facts['adts'] + facts.get('ext_adts', []):
             self.adts[a['path']] = a
@@ -219,10 +239,9 @@ class Program:
         if r is None:
             a = self.adt(path)
             r = a['kind'] == 'enum' and len(a['variants']) > 0 and all(not v['fields'] for v in a['variants'])
-            if r:
-                for v in a['variants']:
-                    if v['discr'] != v['idx']:
-                        raise Undecided('enum %s has non-positional discriminants' % path)
+            if r and any(v['discr'] != v['idx'] for v in a['variants']):
+                # raw bits at the discriminant type's width, exactly as MIR switch targets encode them
+                DISCR[path] = [v['discr'] for v in a['variants']]
             self._fieldless[path] = r
         return r
 
@@ -287,17 +306,17 @@ def full_domain(prog, tk):
 # interpreter state
 
 class Frame:
-    __slots__ = ('uid', 'fn', 'body', 'bb', 'dest', 'ret_to', 'depth', 'at_term')
+    __slots__ = ('uid', 'fn', 'body', 'bb', 'dest', 'ret_to', 'depth', 'pc')
 
     def copy(self):
         f = Frame()
-        f.uid, f.fn, f.body, f.bb, f.dest, f.ret_to, f.depth, f.at_term = \
-            self.uid, self.fn, self.body, self.bb, self.dest, self.ret_to, self.depth, self.at_term
+        f.uid, f.fn, f.body, f.bb, f.dest, f.ret_to, f.depth, f.pc = \
+            self.uid, self.fn, self.body, self.bb, self.dest, self.ret_to, self.depth, self.pc
         return f
 
     def goto(self, bb):
         self.bb = bb
-        self.at_term = False
+        self.pc = 0    # index of the next statement of the block to execute
 
 
 class State:
@@ -326,8 +345,9 @@ class Leaf:
 
 
 class Engine:
-    def __init__(self, prog, opaque=(), max_steps=2_000_000, max_depth=12):
+    def __init__(self, prog, opaque=(), max_steps=2_000_000, max_depth=12, use_ext=True):
         self.prog = prog
+        self.use_ext = use_ext
         self.opaque = set(opaque)
         self.max_steps = max_steps
         self.max_depth = max_depth
@@ -355,6 +375,8 @@ class Engine:
         k = ty['k']
         if k == 'tuple':
             return ('adt', '(tuple)', 0, tuple(self.mk_sym(t, '%s.%d' % (name, i), st) for i, t in enumerate(ty['elems'])))
+        if k == 'array' and ty.get('len') is not None and ty['len'] <= 64:
+            return ('arr', tuple(self.mk_sym(ty['elem'], '%s[%d]' % (name, i), st) for i in range(ty['len'])))
         if k == 'ref':
             cell = ('H', name)
             if cell in st.store:
@@ -425,6 +447,8 @@ class Engine:
             return self.simp(v, st)
         if k == 'adt':
             return ('adt', v[1], v[2], tuple(self.deep(x, st, seen) for x in v[3]))
+        if k == 'arr':
+            return ('arr', tuple(self.deep(x, st, seen) for x in v[1]))
         if k == 'se':
             s = self.simp(v, st)
             if s[0] == 'adt':
@@ -451,6 +475,12 @@ class Engine:
                 if v[0] != 'adt':
                     raise Undecided('field projection on %s' % v[0])
                 v = v[3][step[1]]
+            elif step[0] == 'i':
+                if v[0] != 'arr':
+                    raise Undecided('index projection on %s' % v[0])
+                if not 0 <= step[1] < len(v[1]):
+                    raise Undecided('array index %d out of bounds (%d) without a bounds check' % (step[1], len(v[1])))
+                v = v[1][step[1]]
             else:  # downcast
                 if v[0] == 'se':
                     d = st.doms.get(v[2][1]) if v[2][0] == 'a' else None
@@ -472,6 +502,12 @@ class Engine:
             raise Undecided('partial write into uninitialised value')
         if v[0] == 'se':
             v = self.simp(v, st)
+        if step[0] == 'i':
+            if v[0] != 'arr' or not 0 <= step[1] < len(v[1]):
+                raise Undecided('indexed write outside an array')
+            elems = list(v[1])
+            elems[step[1]] = self.set_path(elems[step[1]], path[1:], new, st)
+            return ('arr', tuple(elems))
         if v[0] != 'adt':
             raise Undecided('projection write on %s' % v[0])
         if step[0] == 'd':
@@ -497,6 +533,15 @@ class Engine:
                 path = path + (('f', e['i']),)
             elif k == 'downcast':
                 path = path + (('d', e['v']),)
+            elif k == 'index':
+                iv = self.simp(st.store.get(('L', fr.uid, e['l'])), st)
+                if iv is None or not is_scalar(iv):
+                    raise Undecided('array index is not a scalar')
+                if iv[0] != 'c':
+                    raise NeedSplit(iv)
+                path = path + (('i', iv[1]),)
+            elif k == 'cindex' and not e.get('from_end'):
+                path = path + (('i', e['i']),)
             else:
                 raise Undecided('place projection ' + e.get('s', k))
         return cell, path
@@ -526,6 +571,8 @@ class Engine:
             return C(wrap(o['int'], tk), tk)
         if 'promoted' in o:
             return self.eval_promoted(o['promoted'], st, fr)
+        if 'val' in o:
+            return self.structured_const(o['val'])
         if 'zst' in o:
             if ty['k'] == 'tuple':
                 return ('adt', '(tuple)', 0, ())
@@ -533,6 +580,24 @@ class Engine:
         if 'fn' in o:
             return ('fn', o['fn'])
         return ('op', 'const:' + o.get('other', '?')[:60], ty)
+
+    def structured_const(self, j):
+        ty = j['ty']
+        if 'int' in j:
+            tk = self.prog.tk(ty)
+            if tk is None:
+                raise Undecided('constant scalar of unknown type')
+            return C(wrap(j['int'], tk), tk)
+        if 'elems' in j:
+            elems = tuple(self.structured_const(x) for x in j['elems'])
+            if ty['k'] == 'array':
+                return ('arr', elems)
+            return ('adt', '(tuple)', 0, elems)
+        if 'fields' in j:
+            if self.prog.tk(ty) is not None:
+                return C(j['variant'], 'E:' + j['path'])
+            return ('adt', j['path'], j['variant'], tuple(self.structured_const(x) for x in j['fields']))
+        raise Undecided('structured constant')
 
     def eval_promoted(self, idx, st, fr):
         body = fr.fn['promoted'][idx]
@@ -542,7 +607,7 @@ class Engine:
         # run the (straight-line) promoted body in a scratch frame
         pf = Frame()
         pf.uid = st.next_uid; st.next_uid += 1
-        pf.fn, pf.body, pf.bb, pf.dest, pf.ret_to, pf.depth, pf.at_term = fr.fn, body, 0, None, None, fr.depth + 1, False
+        pf.fn, pf.body, pf.bb, pf.dest, pf.ret_to, pf.depth, pf.pc = fr.fn, body, 0, None, None, fr.depth + 1, 0
         bb = 0
         for _ in range(64):
             blk = body['blocks'][bb]
@@ -593,6 +658,9 @@ class Engine:
             if op.endswith('WithOverflow'):
                 base = op[:-len('WithOverflow')]
                 return ('adt', '(tuple)', 0, (T(base, (a, b), tka), T(base + 'Ovf', (a, b), 'bool')))
+            if op == 'Cmp':
+                self.prog.is_fieldless_enum('core::cmp::Ordering')
+                return T('Cmp', (a, b), 'E:core::cmp::Ordering')
             if op not in self.BIN:
                 raise Undecided('binary operator ' + op, sp)
             o = self.BIN[op]
@@ -606,6 +674,11 @@ class Engine:
             a = self.simp(self.operand(rv['op'], st, fr), st)
             tk = self.prog.tk(rv['ty'])
             if rv['kind'] == 'IntToInt' and is_scalar(a) and tk is not None and not tk.startswith('E:'):
+                if tk_of(a).startswith('E:') and tk_of(a)[2:] in DISCR:
+                    a = T('Discr', (a,), 'isize')
+                return T('Cast', (a,), tk)
+            if rv['kind'] == 'Transmute' and is_scalar(a) and tk in INT_TYPES and tk_of(a) in INT_TYPES \
+                    and INT_TYPES[tk][0] == INT_TYPES[tk_of(a)][0] and tk != 'bool' and tk_of(a) != 'bool':
                 return T('Cast', (a,), tk)
             if rv['kind'].startswith('PointerCoercion') or rv['kind'] in ('PtrToPtr',):
                 raise Undecided('pointer cast ' + rv['kind'], sp)
@@ -617,11 +690,17 @@ class Engine:
             ops = tuple(self.operand(o, st, fr) for o in rv['ops'])
             if rv['kind'] == 'tuple':
                 return ('adt', '(tuple)', 0, ops)
+            if rv['kind'] == 'array':
+                return ('arr', ops)
+            if rv['kind'] == 'closure':
+                return ('adt', '(closure)' + rv['path'], 0, ops)
             if rv['kind'] == 'adt':
                 if self.prog.is_fieldless_enum(rv['path']):
                     return C(rv['variant'], 'E:' + rv['path'])
                 return ('adt', rv['path'], rv['variant'], ops)
             raise Undecided('aggregate ' + rv.get('s', rv['kind']), sp)
+        if k == 'repeat' and rv.get('n') is not None and rv['n'] <= 4096:
+            return ('arr', (self.operand(rv['op'], st, fr),) * rv['n'])
         raise Undecided('rvalue ' + rv.get('s', k)[:80], sp)
 
     def discriminant(self, v, st, sp=None):
@@ -637,7 +716,10 @@ class Engine:
                 raise Undecided('symbolic enum with non-positional discriminants', sp)
             return self.simp(v[2], st)
         if k in ('c', 'a', 't') and tk_of(v).startswith('E:'):
-            return self.simp(v, st)
+            v = self.simp(v, st)
+            if tk_of(v)[2:] in DISCR:
+                return T('Discr', (v,), 'isize')
+            return v
         raise Undecided('discriminant of %s' % term_str(v), sp)
 
     # ---------------------------------------------------------------- statements
@@ -653,7 +735,7 @@ class Engine:
                 st.ret_span = (fr.fn['path'], s['sp'])
             return
         if s['k'] == 'other' and s['tag'] in ('FakeRead', 'PlaceMention', 'AscribeUserType', 'Coverage',
-                                               'ConstEvalCounter', 'Retag', 'BackwardIncompatibleDropHint'):
+                                               'ConstEvalCounter', 'Retag', 'BackwardIncompatibleDropHint', 'assume'):
             return
         raise Undecided('statement ' + s.get('s', s['k'])[:80], s.get('sp'))
 
@@ -713,7 +795,7 @@ class Engine:
         body = f['body']
         fr = Frame()
         fr.uid = 0; fr.fn = f; fr.body = body; fr.bb = 0; fr.dest = None; fr.ret_to = None; fr.depth = 0
-        fr.at_term = False
+        fr.pc = 0
         self.full_doms = {}
         self.sym_counter = 0
         self.arg_doms = dict(arg_doms or {})
@@ -762,10 +844,23 @@ class Engine:
         while True:
             fr = st.frames[-1]
             blk = fr.body['blocks'][fr.bb]
-            if not fr.at_term:
-                for s in blk['stmts']:
-                    self.exec_stmt(s, st, fr)
-                fr.at_term = True   # a re-executed terminator (after a fork) must not redo the statements
+            stmts = blk['stmts']
+            resplit = False
+            while fr.pc < len(stmts):   # a re-executed statement/terminator (after a fork) must not redo earlier ones
+                try:
+                    self.exec_stmt(stmts[fr.pc], st, fr)
+                except NeedSplit as ns:
+                    parts = self.split(st, ns.value, stmts[fr.pc].get('sp'))
+                    if len(parts) == 1 and parts[0][1] is st:
+                        raise Undecided('index value cannot be decided', stmts[fr.pc].get('sp'))
+                    for _, s2 in parts:
+                        if s2 is not st:
+                            work.append(s2)
+                    resplit = True
+                    break
+                fr.pc += 1
+            if resplit:
+                return
             t = blk['term']
             k = t['k']
             st.steps += 1
@@ -881,20 +976,36 @@ class Engine:
         target = None
         if path is not None and path in prog.fns and res['local']:
             target = path
-        # ---- inlining of local callees
+        # ---- inlining of local callees (incl. closures) and of monomorphised library bodies
+        callee = None
         if target is not None and target not in self.opaque:
+            callee = prog.fns[target]
+        elif target is None and res is not None and self.use_ext and res.get('kind') == 'item':
+            ef = prog.ext_fns.get(res['path_inst'])
+            if ef is not None and res['path'] not in self.opaque and not self.is_panic_path(res['path']):
+                callee = ef
+        if callee is not None:
             if fr.depth + 1 > self.max_depth:
                 raise Undecided('call depth bound exceeded (recursion?)', sp)
             if t['t'] is None:
-                raise Undecided('local diverging call', sp)
-            callee = prog.fns[target]
+                raise Undecided('diverging call to a function with a body', sp)
+            vals = [self.operand(a, st, fr) for a in t['args']]
+            nargs = callee['body']['arg_count']
+            if callee.get('kind') == 'Closure' and len(vals) == 2 and nargs != 2:
+                tup = vals[1]
+                if tup is None or tup[0] != 'adt' or tup[1] != '(tuple)':
+                    raise Undecided('closure call without an argument tuple', sp)
+                vals = [vals[0]] + list(tup[3])
+            elif callee.get('kind') == 'Closure' and len(vals) == 2 and nargs == 2:
+                tup = vals[1]
+                if tup is not None and tup[0] == 'adt' and tup[1] == '(tuple)' and len(tup[3]) == 1:
+                    vals = [vals[0], tup[3][0]]
+            if len(vals) != nargs:
+                raise Undecided('argument count mismatch calling %s' % callee['path'], sp)
             nf = Frame()
             nf.uid = st.next_uid; st.next_uid += 1
-            nf.fn = callee; nf.body = callee['body']; nf.bb = 0; nf.at_term = False
+            nf.fn = callee; nf.body = callee['body']; nf.bb = 0; nf.pc = 0
             nf.dest = t['dest']; nf.ret_to = t['t']; nf.depth = fr.depth + 1
-            if len(t['args']) != nf.body['arg_count']:
-                raise Undecided('argument count mismatch', sp)
-            vals = [self.operand(a, st, fr) for a in t['args']]
             for i, v in enumerate(vals):
                 st.store[('L', nf.uid, i + 1)] = v
             st.frames.append(nf)
@@ -940,6 +1051,12 @@ class Engine:
             fr.goto(t['t'])
             return 'cont'
         raise Undecided('call to un-modelled function %s' % (fn['path_inst'],), sp)
+
+    @staticmethod
+    def is_panic_path(path):
+        return path.startswith('core::panicking::') or path.startswith('std::rt::begin_panic') \
+            or path in ('core::option::unwrap_failed', 'core::result::unwrap_failed', 'core::option::expect_failed',
+                        'core::slice::index::slice_index_fail', 'core::str::slice_error_fail')
 
     def place_ty(self, pl, fr):
         ty = fr.body['locals'][pl['l']]['ty']
@@ -1051,10 +1168,17 @@ class Engine:
                 if not is_scalar(v):
                     raise Undecided(nm + ' on non-scalar', sp)
                 return ret(T(op, (v,), 'u32'))
+        if path == 'core::intrinsics::ctpop':
+            v = self.simp(self.operand(args[0], st, fr), st)
+            if not is_scalar(v):
+                raise Undecided('ctpop on non-scalar', sp)
+            return ret(T('CountOnes', (v,), 'u32'))
+        if path in ('core::intrinsics::likely', 'core::intrinsics::unlikely', 'core::hint::black_box', 'core::convert::identity'):
+            return ret(self.operand(args[0], st, fr))
+        if path in ('core::intrinsics::cold_path', 'core::hint::assert_unchecked', 'core::intrinsics::assume'):
+            return ret(('adt', '(tuple)', 0, ()))
         # panic entry points diverge
-        if path.startswith('core::panicking::') or path.startswith('std::rt::begin_panic') \
-                or path in ('core::option::unwrap_failed', 'core::result::unwrap_failed',
-                            'core::option::expect_failed'):
+        if self.is_panic_path(path):
             self.finish(st, 'panic', leaves, panic=('call:' + path, path, sp, fr.fn['path']))
             return 'stop'
         if path in ('core::option::Option::<T>::unwrap', 'core::option::Option::<T>::expect',
